@@ -413,9 +413,10 @@ where
 	// First attempt to spend without change
 	let mut fee = tx_fee(coins.len(), 1, 1);
 	let mut total: u64 = coins.iter().map(|c| c.value).sum();
+	let amount_overflow = || Error::GenericError("Transaction amount is too large".to_owned());
 	let mut amount_with_fee = match amount_includes_fee {
 		true => amount,
-		false => amount + fee,
+		false => amount.checked_add(fee).ok_or_else(amount_overflow)?,
 	};
 
 	if total == 0 {
@@ -444,7 +445,7 @@ where
 		fee = tx_fee(coins.len(), num_outputs, 1);
 		amount_with_fee = match amount_includes_fee {
 			true => amount,
-			false => amount + fee,
+			false => amount.checked_add(fee).ok_or_else(amount_overflow)?,
 		};
 
 		// Here check if we have enough outputs for the amount including fee otherwise
@@ -475,7 +476,7 @@ where
 			total = coins.iter().map(|c| c.value).sum();
 			amount_with_fee = match amount_includes_fee {
 				true => amount,
-				false => amount + fee,
+				false => amount.checked_add(fee).ok_or_else(amount_overflow)?,
 			};
 		}
 	}
